@@ -891,6 +891,7 @@ pub fn run_c15(tier: &str, seed: u64) -> Report {
 
     // ---- one parser whose expectation for a key is REPLACED between parses
     let mut r = Report::new();
+    let _ = crate::c04::recent_sessions_take();
     for &p in &ALL {
         let key = pools.key(p, 0);
         let mk = |role: Value, seats: i64| vec![ClaimOp::Set(Claim::Custom("role".into(), role)), ClaimOp::Set(Claim::Custom("seats".into(), json!(seats))), ClaimOp::Set(Claim::Aud("aud-1".into()))];
@@ -926,10 +927,14 @@ pub fn run_c15(tier: &str, seed: u64) -> Report {
             step(PStep::Parse { token: toks[2].clone(), key: 0 }, Some(false), "additional expectation aud=aud-2; token has aud-1");
             step(PStep::Check(Claim::Aud("aud-1".into())), None, "");
             step(PStep::Parse { token: toks[2].clone(), key: 0 }, Some(true), "expectation REPLACED by aud=aud-1; token admin/5/aud-1");
-            let c = crate::c04::SessionCase { prop: "C15".into(), p, batteries, default_parser: dp, keys: vec![key.clone()], footer: None, ia: None, steps, expect, what };
+            let c = crate::c04::SessionCase { prop: "C15".into(), p, batteries, default_parser: dp, keys: vec![key.clone()], footer: None, ia: None, steps, expect, what, nested_expect: vec![], nested_what: vec![] };
             crate::c04::session_eval(&c, &mut r);
         }
     }
+    // ... and two such parsers alive at once on one thread (different protocols / layers / expectations)
+    let cases = crate::c04::recent_sessions_take();
+    crate::c04::nested_pairs("C15", &cases, if thorough { 2000 } else { 160 }, seed, &mut r);
+    r.require("nested parser pairs: both answer as alone", 60);
     total.merge(r);
 
     // ---- PasetoParser::default() + check_claim(exp|nbf): its own class (known finding)
@@ -966,7 +971,7 @@ pub fn replay_c15(case: &Value) -> Report {
     r
 }
 
-pub const RULE_C15: &str = "for seeded random token claim sets S (registered string claims, integers, booleans, nested JSON, strings) the expected sets E = {equal, random subset, superset with one absent claim, one value changed (case / trailing space / NUL suffix / one byte longer / extended or shortened by exactly 256, 512, 65536 bytes / type / off-by-one / fraction / negation / extra element; time claims: another instant and the same instant or second spelled differently), one key changed by one character, expected value on a claim that is present as null, integer-vs-float spelling (don't-care)} are registered with check_claim (and, on GenericParser, also through one extend_check_claims call) on GenericParser, PasetoParser::new() and PasetoParser::default() and the authentic token is parsed; oracle = harness-side comparison of S and E: accept iff no discrepancy; a missing-only discrepancy must be reported as Missing(k) for a missing k; an error must name a failing claim. Plus 500 (thorough 5000) histories: one parser processes 8 tokens in 4 orders and every outcome must equal the fresh-parser outcome. Plus sessions in which the expectation for a key is REPLACED on a live parser between parses (check_claim again with another value). Plus PasetoParser::default().check_claim(exp|nbf) as its own class. Plus authentic tokens whose payload is valid JSON but not an object (sealed at the core layer: [], \"aud\", 137, true, null, ...): every expectation must fail. Token claim keys include path/pointer look-alikes ('a/b' next to a nested a.b, 'https://example.com/role', '~0', 'a[0]'). distinct_nontrivial = distinct (protocol, parser kind, outcome, expectation class, error variant)";
+pub const RULE_C15: &str = "for seeded random token claim sets S (registered string claims, integers, booleans, nested JSON, strings) the expected sets E = {equal, random subset, superset with one absent claim, one value changed (case / trailing space / NUL suffix / one byte longer / extended or shortened by exactly 256, 512, 65536 bytes / type / off-by-one / fraction / negation / extra element; time claims: another instant and the same instant or second spelled differently), one key changed by one character, expected value on a claim that is present as null, integer-vs-float spelling (don't-care)} are registered with check_claim (and, on GenericParser, also through one extend_check_claims call) on GenericParser, PasetoParser::new() and PasetoParser::default() and the authentic token is parsed; oracle = harness-side comparison of S and E: accept iff no discrepancy; a missing-only discrepancy must be reported as Missing(k) for a missing k; an error must name a failing claim. Plus 500 (thorough 5000) histories: one parser processes 8 tokens in 4 orders and every outcome must equal the fresh-parser outcome. Plus sessions in which the expectation for a key is REPLACED on a live parser between parses (check_claim again with another value), and 160 (thorough 2000) NESTED pairs of such sessions (a second parser with other expectations is created, used and dropped in the middle of the first one's life on the same thread). Plus PasetoParser::default().check_claim(exp|nbf) as its own class. Plus authentic tokens whose payload is valid JSON but not an object (sealed at the core layer: [], \"aud\", 137, true, null, ...): every expectation must fail. Token claim keys include path/pointer look-alikes ('a/b' next to a nested a.b, 'https://example.com/role', '~0', 'a[0]'). distinct_nontrivial = distinct (protocol, parser kind, outcome, expectation class, error variant)";
 
 // ==========================================================================================
 // C16
